@@ -1,0 +1,35 @@
+//go:build verif
+
+package otp
+
+// Contracts for /verif (contract-based deductive verification of the real
+// code). Comment-only: no code; visible only with the build tag "verif".
+//
+// The stored one-time passwords as a list (the view the property talks about):
+//@ spec otp_count(s) := ite(len(s) == 0, 0, str_split_len(s, ","))
+//@ spec otp_entry(s, m) := str_split(s, ",")[m]
+//@
+//@ func (*OTP).LoginPost
+//@   property C01 C02 C03 C04 C12 C18
+//@   invariant loop#1 index_inv: rangeindex >= -1
+//@
+//@   -- C01/C12: the session is written only after a stored one-time password of the
+//@   -- loaded user matched the submitted one (constant-time compare of sha512(input)
+//@   -- with the decoded entry) AND the shrunken list was saved successfully
+//@   ensures[C01,C12,C18] consume_before_session: each Sess.Put("uid", ?v) =>
+//@       before Store.Save(?s) -> ?se :: se == nil && PID(s) == v &&
+//@       before Store.Load(?p) -> (?u, ?le) :: le == nil && p == v && u == s &&
+//@       before Body.Read(PageLogin) -> (?vals, ?re) :: re == nil && p == val(vals, "GetPID") &&
+//@          (exists m int :: 0 <= m && m < otp_count(OTPs(u)) &&
+//@              sha512(val(vals, "GetPassword")) == b64std_dec(otp_entry(OTPs(u), m)))
+//@   ensures[C01] halfauth_cleared: each Sess.Put("uid", _) => after Sess.Del("halfauth")
+//@   ensures[C01] only_uid: each Sess.Put(?k, _) => k == "uid"
+//@   ensures[C02] hijack_fired: each Sess.Put("uid", ?v) =>
+//@       before Fire("Before", EventAuthHijack, ?cu, _, _) -> (?hd, ?e) :: hd == false && e == nil && PID(cu) == v
+//@   ensures[C03] login_veto: each Sess.Put("uid", ?v) =>
+//@       before Fire("Before", EventAuth, ?cu, _, _) -> (?hd, ?e) :: hd == false && e == nil && PID(cu) == v
+//@   ensures[C04] fail_reported: (result == nil && !emits Store.Save(_) && (emits Store.Load(_) -> (_, ?le) :: le == nil) && !emits Log("error", _)) ==>
+//@       emits Fire("After", EventAuthFail, ?cu, _, _) :: before Store.Load(_) -> (?u, _) :: cu == u
+//@   ensures[C04] correct_not_failure: each Fire(_, EventAuthFail, _, _, _) => !emits Store.Save(_) && !emits Sess.Put(_, _)
+//@   ensures[C18] no_panic: !panics
+//@   ensures[C18] save_error_outcome: each Store.Save(_) -> ?e => e != nil ==> (result == e && !emits Sess.Put(_, _) && !emits Redirect(_))
